@@ -29,6 +29,10 @@ pub enum MoveLike {
     UciStr(String),
     /// `make::San(text)`
     SanStr(String),
+    /// `unsafe { make::Unchecked::new(mv) }`, only ever built for a move that is legal where it is applied
+    Unchecked(RMove),
+    /// `unsafe { make::TryUnchecked::new(mv) }`, only ever built for a move that is semilegal where it is applied
+    TryUnchecked(RMove),
 }
 
 #[derive(Clone, Copy, Debug, PartialEq, Eq)]
@@ -247,6 +251,11 @@ impl SanData {
 }
 
 impl MoveLike {
+    /// Built through an `unsafe` constructor: outside the scope of C02 ("without unsafe code").
+    pub fn is_unsafe_built(&self) -> bool {
+        matches!(self, MoveLike::Unchecked(_) | MoveLike::TryUnchecked(_))
+    }
+
     pub fn encode(&self) -> String {
         match self {
             MoveLike::Move(m) => format!("m {}", enc_rmove(m)),
@@ -255,6 +264,8 @@ impl MoveLike {
             MoveLike::SanMove { data, check } => format!("s {} {}", check, data.encode()),
             MoveLike::UciStr(s) => format!("us {}", hex(s)),
             MoveLike::SanStr(s) => format!("ss {}", hex(s)),
+            MoveLike::Unchecked(m) => format!("unchecked {}", enc_rmove(m)),
+            MoveLike::TryUnchecked(m) => format!("try_unchecked {}", enc_rmove(m)),
         }
     }
 
@@ -280,6 +291,14 @@ impl MoveLike {
             }
             "us" => Some((MoveLike::UciStr(unhex(t.get(1)?)?), 2)),
             "ss" => Some((MoveLike::SanStr(unhex(t.get(1)?)?), 2)),
+            "unchecked" => {
+                let (m, n) = dec_rmove(&t[1..])?;
+                Some((MoveLike::Unchecked(m), n + 1))
+            }
+            "try_unchecked" => {
+                let (m, n) = dec_rmove(&t[1..])?;
+                Some((MoveLike::TryUnchecked(m), n + 1))
+            }
             _ => None,
         }
     }
@@ -306,6 +325,8 @@ impl MoveLike {
             MoveLike::SanMove { data, check } => format!("san::Move({:?},check={})", data, check),
             MoveLike::UciStr(s) => format!("Uci({:?})", s),
             MoveLike::SanStr(s) => format!("San({:?})", s),
+            MoveLike::Unchecked(m) => format!("Unchecked({})", m.uci()),
+            MoveLike::TryUnchecked(m) => format!("TryUnchecked({})", m.uci()),
         }
     }
 }
